@@ -29,6 +29,8 @@ func newEraCtx(c *Ctx, r *Report) *eraCtx {
 	e.reps = e.a.reps(c.Tier == "thorough")
 	r.Extra["height_classes"] = len(e.reps)
 	r.Extra["activations"] = e.a.m
+	r.Extra["height_literals_in_code"] = e.a.extraConsts
+	r.Extra["height_moduli_in_code"] = e.a.moduli
 	return e
 }
 
